@@ -9,7 +9,11 @@
      E name param T nin nout | sizes | params | inputs | labels
      W name param T nin nout | sizes | params | inputs | labels | weights
      R name param T nin nout reg lam | sizes | params | inputs | labels | mask
-     B name param seed nin nout | sizes | params | inputs | labels      (all candidate mini-batch results) *)
+     B name param seed nin nout | sizes | params | inputs | labels      (all candidate mini-batch results)
+     N name param T nin nhid nout | sizes | params | inputs | labels    (ErrorFunction on LinearModel >> LinearModel)
+     Z zov thr dim | sizes | labels | preds | weights                   (ZeroOneLoss weighted eval)
+   Lines with real (non-rational) data run the float instantiation of the Section-polymorphic functions for
+   ce, cev, huber, abs (L lines); all other real-data lines print "<kind> -". *)
 open C06_model
 
 let rec nat_of_int n = if n <= 0 then O else S (nat_of_int (n - 1))
@@ -69,8 +73,15 @@ let table name param = match name with
 let fpf x = if x <> x then "nan" else if x = infinity then "inf" else if x = neg_infinity then "-inf" else Printf.sprintf "%h" x
 let rec int_of_nat = function O -> 0 | S n -> 1 + int_of_nat n
 let fofnat n = float_of_int (int_of_nat n)
-let fce_eval c p = ce_eval 0.0 1.0 ( +. ) ( -. ) ( *. ) (fun x -> -. x) exp log (fun a b -> a < b) fofnat (nat_of_int c) p
-let fce_evald c p = ce_evald 0.0 1.0 ( +. ) ( -. ) ( *. ) ( /. ) (fun x -> -. x) exp log (fun a b -> a < b) fofnat (nat_of_int c) p
+let flt (a : float) (b : float) = a < b
+let fneg x = -. x
+let fce_batch_eval b = ce_batch_eval 0.0 1.0 ( +. ) ( -. ) ( *. ) fneg exp log flt fofnat b
+let fce_batch_evald b = ce_batch_evald 0.0 1.0 ( +. ) ( -. ) ( *. ) ( /. ) fneg exp log flt fofnat b
+let fcev_eval b = cev_eval 0.0 ( +. ) ( -. ) ( *. ) exp log flt b
+let fcev_evald b = cev_evald 0.0 ( +. ) ( -. ) ( *. ) ( /. ) exp log flt b
+let fhuber_eval d b = huberA_eval 0.0 1.0 ( +. ) ( -. ) ( *. ) ( /. ) flt sqrt d b
+let fhuber_evald d b = huberA_evald 0.0 1.0 ( +. ) ( -. ) ( *. ) ( /. ) flt sqrt d b
+let fabs_eval b = absA_eval 0.0 ( +. ) ( -. ) ( *. ) sqrt b
 let fv l = if l = [] then "-" else String.concat "," (List.map fpf l)
 
 (* batch of (label, prediction) pairs for the table losses *)
@@ -91,7 +102,32 @@ let handle l =
     let isec i = List.map int_of_string (sec i) in
     (* lines with non-rational data (hex / decimal floats) are outside the exact model; cross-entropy L lines use the float model *)
     let is_real = List.exists (fun t -> String.contains t 'x' || String.contains t '.') (List.concat (List.tl (Array.to_list g))) in
-    if is_real && not (kind = "L" && Array.length hd > 1 && hd.(1) = "ce") then kind ^ " -" else
+    let fmodel = Array.length hd > 1 && List.mem hd.(1) ["ce"; "cev"; "huber"; "abs"] in
+    if (is_real || (Array.length hd > 1 && (hd.(1) = "ce" || hd.(1) = "cev"))) && not (kind = "L" && fmodel) then kind ^ " -" else
+    if kind = "L" && fmodel && (is_real || hd.(1) = "ce" || hd.(1) = "cev") then begin
+      (* float instantiation; a batch and its single-element sub-batches go through the same batch functions *)
+      let name = hd.(1) and dim = int_of_string hd.(3) in
+      let preds = rows dim (List.map parse_f (sec 2)) in
+      let out v dv g ev edv eg = Printf.sprintf "L v=%s dv=%s g=%s ev=%s edv=%s eg=%s" v dv g ev edv eg in
+      if name = "ce" then begin
+        let b = List.map2 (fun c p -> (nat_of_int c, p)) (isec 1) preds in
+        let (dv, gr) = fce_batch_evald b in
+        let ed = List.map (fun e -> fce_batch_evald [e]) b in
+        out (fpf (fce_batch_eval b)) (fpf dv) (fv (List.concat gr)) (fv (List.map (fun e -> fce_batch_eval [e]) b))
+          (fv (List.map fst ed)) (fv (List.concat (List.map (fun (_, r) -> List.concat r) ed)))
+      end else begin
+        let b = List.map2 (fun l p -> (l, p)) (rows dim (List.map parse_f (sec 1))) preds in
+        if name = "abs" then
+          Printf.sprintf "L v=%s dv=- g=- ev=%s edv=- eg=-" (fpf (fabs_eval b)) (fv (List.map (fun e -> fabs_eval [e]) b))
+        else begin
+          let (ev, evd) = if name = "cev" then (fcev_eval, fcev_evald) else (let d = parse_f hd.(2) in (fhuber_eval d, fhuber_evald d)) in
+          let (dv, gr) = evd b in
+          let ed = List.map (fun e -> evd [e]) b in
+          out (fpf (ev b)) (fpf dv) (fv (List.concat gr)) (fv (List.map (fun e -> ev [e]) b))
+            (fv (List.map fst ed)) (fv (List.concat (List.map (fun (_, r) -> List.concat r) ed)))
+        end
+      end
+    end else
     match kind with
     | "G" ->
       let mask = qsec 1 and x = qsec 2 in
@@ -102,15 +138,7 @@ let handle l =
       let dim = int_of_string hd.(3) in
       let off = if kind = "M" then 2 else 1 in
       let fam = family name in
-      if name = "ce" && kind = "L" then begin
-        let labs = isec off and preds = List.map parse_f (sec (off + 1)) in
-        let prs = rows dim preds in
-        let ev = List.map2 fce_eval labs prs in
-        let ed = List.map2 fce_evald labs prs in
-        let v = List.fold_left ( +. ) 0.0 ev and dv = List.fold_left (fun s (x, _) -> s +. x) 0.0 ed in
-        Printf.sprintf "L v=%s dv=%s g=%s ev=%s edv=%s eg=%s" (fpf v) (fpf dv) (fv (List.concat (List.map snd ed)))
-          (fv ev) (fv (List.map fst ed)) (fv (List.concat (List.map snd ed)))
-      end else if fam = Other || name = "ce" then kind ^ " -"
+      if fam = Other || name = "ce" then kind ^ " -"
       else begin
         let param = parse_q hd.(2) in
         (* eval on a batch, and evalDerivative where it exists; elements as an opaque list *)
@@ -189,6 +217,30 @@ let handle l =
                 let v = qhd (minibatch (lin_bq_eval k m) (nat_of_int i) d) and r = minibatch (lin_bq k m) (nat_of_int i) d in
                 Printf.sprintf "b%d=%s:%s:%s" i (qs v) (qs (qhd r)) (qv (List.tl r))) in
             "B " ^ String.concat " " cands))
+    | "Z" ->
+      let thr = parse_q hd.(2) and dim = int_of_string hd.(3) in
+      let es = List.map2 (fun c p -> (nat_of_int c, p)) (isec 2) (rows dim (qsec 3)) in
+      Printf.sprintf "Z z=%s" (qs (zow_eval thr (chunk (isec 1) es) (qsec 4)))
+    | "N" ->
+      let name = hd.(1) in
+      (match table name (parse_q hd.(2)) with
+       | None -> "N -"
+       | Some k ->
+         let t = int_of_string hd.(3) and nin = int_of_string hd.(4) and nh = int_of_string hd.(5) and nout = int_of_string hd.(6) in
+         let szs = isec 1 and params = qsec 2 and ins = rows nin (qsec 3) in
+         let p1 = take (nin * nh + nh) params and p2 = drop (nin * nh + nh) params in
+         let m = { n1 = { lW = rows nin (take (nin * nh) p1); lb = drop (nin * nh) p1 };
+                   n2 = { lW = rows nh (take (nh * nout) p2); lb = drop (nh * nout) p2 } } in
+         let n = List.length ins in
+         let labs : lab list =
+           if family name = VV then List.map (fun r -> (O, r)) (rows (List.length (sec 4) / (max n 1)) (qsec 4))
+           else List.map (fun c -> (nat_of_int c, [])) (isec 4) in
+         let es : elem list = List.map2 (fun x lb -> (x, lb)) ins labs in
+         let d = chunk szs es in
+         let el = List.map (fun e -> qhd (net2_bq_eval k m [e])) es in
+         let nt = nat_of_int t in
+         let v = qhd (net2_ef_eval k m nt d) and r = net2_ef_evald k m nt d in
+         Printf.sprintf "N v=%s dv=%s g=%s el=%s" (qs v) (qs (qhd r)) (qv (List.tl r)) (qv el))
     | k -> k ^ " -"
 
 let () =
